@@ -362,3 +362,20 @@ PROPS['C11'] = dict(
     technique='metamorphic end-point conservation monitor with an independent greedy-search oracle; release + debug-assertion builds',
     design_ref='DESIGN.md section 4, C11',
 )
+
+PROPS['C15'] = dict(
+    sub='c15',
+    quick=[S('rel'), S('dbg')],
+    thorough=[S('rel'), S('dbg')],
+    rule='friendly format: the whole configuration lattice designator(4) x spacing(3) x direction(4) x fractional(6) x comma(2) x HH:MM:SS(2) = 1152 configurations, each with seeded padding {default,0,2,7}, precision {None,0,1,3,6,9} and zero_unit; '
+         'values: zero, each unit at its limit, all units at their limits, sub-second mixes up to the limits, human-sized mixes, carry stressers (x.999999999, 1000 ms, 999999 us), limit-biased spans, and SignedDurations incl. MIN/MAX; for Span and for SignedDuration. '
+         'ISO 8601: seeded spans/durations, upper and lower case designators, Display {} and {:#} with FromStr. Oracle: real printer -> real parser; lossless configurations must give the span back unit for unit (with a fractional unit or HH:MM:SS: units above it unit for unit, the rest as one exact total; durations identical); '
+         'lossy ones (fractional hours/minutes, reduced precision) must parse and differ by less than one unit of the last printed digit; ISO must keep years..minutes and the total of seconds and smaller; no printer panics. '
+         'distinct_nontrivial = distinct (configuration, span) pairs (every 16th) + distinct ISO spans (every 8th)',
+    floors={'quick': {'configurations': 1152, 'evaluations': 30000000}, 'thorough': {'configurations': 1152, 'evaluations': 800000000}},
+    assumptions=COMMON_ASSUME + ['"lossless" = no fractional unit, or fractional seconds/milliseconds/microseconds with precision None or at least 9/6/3 digits; HH:MM:SS keeps hours and minutes as written and seconds+fraction as one total'],
+    level_text='Round-trip monitoring of the real duration printers and parsers over the complete friendly configuration lattice and limit-biased values, in both build modes: lossless configurations must reproduce the value exactly, lossy ones within one unit of the last printed digit, and every output must be accepted by the parser.',
+    level_note='Trusted base: the comparison rules in harness/src/c15.rs (unit-for-unit above the fractional unit, exact i128 totals below). Values are sampled per configuration; the configuration lattice itself is enumerated.',
+    technique='round-trip (print->parse) monitor over an enumerated configuration lattice x seeded limit-biased values; release + debug-assertion builds',
+    design_ref='DESIGN.md section 4, C15',
+)
